@@ -45,6 +45,13 @@ def generate(seed, tier):
         for _ in range(r.randint(1, 3)):
             sc['ops'].append({'t': round(r.uniform(1.5, T), 3), 'op': 'clockjump', 'node': r.choice('AB'),
                               'delta': r.choice([-1.0, -30.0, -300.0, 2.5, 40.0, 400.0])})
+    if r.random() < 0.2:
+        # netlink transport faults (ENOBUFS on send: the request never reaches the kernel; or the request is carried out and its
+        # acknowledgement is lost): not refusals - whatever the daemon concludes, kernel and tables end up in step
+        for _ in range(r.randint(1, 3)):
+            sc['ops'].append({'t': round(r.uniform(0.95, T), 3), 'op': 'knlfail', 'node': r.choice('AB'), 'nth': r.randint(1, 4),
+                              'how': r.choice(['send', 'send', 'recv'])})
+        sc['meta']['knlfail'] = True
     if r.random() < 0.3:
         # copies of datagrams the legitimate peer sent (protected ones, bare headers with the right SPIs) arrive from an address nobody lives
         # at: the IKE_SA and its kernel SAs stay bound to the addresses they were set up between
